@@ -533,6 +533,65 @@ pub fn gen_history(r: &mut Rng, k: &Knobs) -> String {
     format!("sim {} {}", k.tag, cmds.join(" ; "))
 }
 
+/// A service that is renamed by a conflicting response while it probes, and - once it is announced
+/// under the new name - is asked about BOTH names: the one it lost (instance / host, any letter
+/// case, SRV / TXT / ANY / A / AAAA) and the one it holds now.  The loser must be silent about the
+/// name it lost and answer for the new one.
+pub fn gen_renamed_asked(r: &mut Rng, tag: &'static str) -> String {
+    let topo = Topo::new(topo_of(r));
+    let mut cmds: Vec<String> = vec![topo.daemon_cmd(), "ipint 0 100000".to_string()];
+    if !r.chance(1, 8) {
+        cmds.push("monitor 0 900".to_string());
+    }
+    let mut now = 1_000_000u64;
+    cmds.push(format!("run {}", now));
+    let mut s = gen_svc(r, &topo, 0);
+    s.inst = format!("{}-0", s.inst);
+    cmds.push(format!("jit 0 {}", r.pick(&[0u64, 100, 249])));
+    cmds.push(s.register_cmd());
+    now += *r.pick(&[50u64, 300, 520]);
+    cmds.push(format!("run {}", now));
+    let v4_ok = topo.ifs.iter().any(|i| !i.2.contains(':'));
+    let inj = |q: &str| if v4_ok { format!("inject 0 2 1 192.168.1.50 5353 {}", q) } else { format!("inject 0 2 0 fe80::50 5353 {}", q) };
+    for _ in 0..8 {
+        if let Some(q) = gen_conflict(r, std::slice::from_ref(&s)) {
+            cmds.push(inj(&q));
+            break;
+        }
+    }
+    now += 100;
+    cmds.push(format!("run {}", now));
+    now += *r.pick(&[4000u64, 6000]);
+    cmds.push(format!("run {}", now));
+    let renamed = |full: &str, suffix: &str| match full.find('.') {
+        Some(i) => format!("{}{}{}", &full[..i], suffix, &full[i..]),
+        None => full.to_string(),
+    };
+    for _ in 0..r.range(3, 7) {
+        let mut d = MsgDesc::default();
+        for _ in 0..*r.pick(&[1u64, 1, 2]) {
+            let case = r.below(4);
+            let (name, ty): (String, u16) = match r.below(8) {
+                0 | 1 | 2 => (flip_case(&s.fullname(), case), *r.pick(&[33u16, 16, 255])),
+                3 => (flip_case(&renamed(&s.fullname(), " (2)"), case), *r.pick(&[33u16, 16, 255])),
+                4 | 5 => (flip_case(&host_norm(&s.host), case), *r.pick(&[1u16, 28, 255])),
+                6 => (flip_case(&renamed(&host_norm(&s.host), "-2"), case), *r.pick(&[1u16, 28, 255])),
+                _ => (s.ty.clone(), 12),
+            };
+            d.questions.push((name, ty));
+        }
+        if let Some(q) = packet(&d, if r.chance(1, 2) { 0 } else { 77 }) {
+            let port = *r.pick(&[5353u64, 5353, 5353, 40000]);
+            cmds.push(if v4_ok { format!("inject 0 2 1 192.168.1.50 {} {}", port, q) } else { format!("inject 0 2 0 fe80::50 {} {}", port, q) });
+        }
+        now += *r.pick(&[10u64, 200, 1500]);
+        cmds.push(format!("run {}", now));
+    }
+    now += 2000;
+    cmds.push(format!("run {}", now));
+    format!("sim {} {}", tag, cmds.join(" ; "))
+}
+
 fn count(tier: &str, quick: u64, thorough: u64) -> u64 {
     let base = if tier == "thorough" { thorough } else { quick };
     // development aid: VERIF_SCALE=3 triples the number of histories
@@ -593,6 +652,9 @@ pub fn generate_c06(r: &mut Rng, tier: &str, emit: &mut dyn FnMut(String)) {
             w_tiebreak: 0, w_conflict: if r.chance(1, 5) { 1 } else { 0 }, w_jump: 0, shutdown: r.chance(1, 8), jitter: None,
         };
         emit(gen_history(r, &k));
+    }
+    for _ in 0..count(tier, 150, 1500) {
+        emit(gen_renamed_asked(r, "C06"));
     }
 }
 
